@@ -68,6 +68,9 @@ def check_edge(S, name, cname, r):
     return ok
 
 
+_intervals_module = intervals
+
+
 def call(cname, name):
     return engine.with_step_budget(FNS[cname], (name,), budget=20000)
 
@@ -94,7 +97,11 @@ def run_constructors(name):
                      ("determine", ("C", "Gb")), ("from_shorthand", ("D", "b7", False)),
                      ("is_consonant", ("C", "F", False)), ("is_dissonant", ("C", "F", True))):
         try:
-            getattr(intervals, fn)(*args)
+            engine.with_step_budget(getattr(intervals, fn), args, budget=20000)
+        except engine.StepBudgetExceeded as e:
+            S.problem("intervals.%s%r (asked after the constructors on %r)" % (fn, args, name), "an answer within the step horizon",
+                      "no result within horizon: %s" % e)
+            return
         except Exception:                                   # noqa -- judged elsewhere (C03, C04)
             pass
     for cname in I.CONSTRUCTOR_NAMES:
@@ -160,11 +167,19 @@ def run_closure(case):
     engine.bfs_execute(ClosureSpec(case["start"]), case["history"], check_prefix=True)
 
 
+class _Budgeted(object):
+    """the intervals module with every call under the line budget (a looping call becomes a reported problem)"""
+
+    def __getattr__(self, fn):
+        f = getattr(_intervals_module, fn)
+        return lambda *args: engine.with_step_budget(f, args, budget=20000)
+
+
 def run_measure(case):
     S = engine.S
     a, b = case
     m = I.measure(a, b)
-    got = intervals.measure(a, b)
+    got = engine.with_step_budget(_intervals_module.measure, (a, b), budget=20000)      # (the predicates below call nothing that loops)
     if isinstance(got, bool) or got != m:
         S.problem("measure(%r, %r)" % (a, b), m, got, detail={"pc": [P.pc(a), P.pc(b)]})
     vec = []
@@ -214,10 +229,92 @@ def run_measure(case):
         S.sample(case)
 
 
+# ---------------------------------------------------------------------------------------
+# histories: the answers do not depend on what was asked (or refused) before
+# ---------------------------------------------------------------------------------------
+HCALLS = ([("measure", (a, b)) for a, b in (("C", "E"), ("C", "G"), ("E", "C"), ("G", "B"), ("Cb", "B#"), ("E", "E"))] +
+          [("measure", ("C", "H")), ("measure", ("E", "x#")), ("measure", ("H", "C")), ("major_third", ("H",)), ("minor_sixth", ("Cx",))] +
+          [("major_third", ("C",)), ("minor_third", ("E",)), ("perfect_fifth", ("G",)), ("major_seventh", ("Cb",)), ("minor_second", ("E",)),
+           ("is_consonant", ("C", "E")), ("is_dissonant", ("E", "C")), ("is_perfect_consonant", ("C", "G"))])
+_HBASE = {}
+
+
+def _reload_theory():
+    import importlib
+    import mingus.core.notes as _notes
+    importlib.reload(_notes)
+    importlib.reload(_intervals_module)
+
+
+def _hdo(i):
+    name, args = HCALLS[i]
+    try:
+        return ["ok", engine.with_step_budget(getattr(_intervals_module, name), args, budget=20000)]
+    except engine.StepBudgetExceeded:
+        return ["no result within the step horizon"]
+    except Exception as e:                              # noqa
+        return ["raised", type(e).__name__]
+
+
+def _hbase(i):
+    if i not in _HBASE:
+        _reload_theory()
+        _HBASE[i] = _hdo(i)
+    return _HBASE[i]
+
+
+def run_history3(case):
+    """case = [i, j]: for every third call k the sequence (i, j, k) in freshly loaded notes / intervals modules; every answer
+    must be the one the same question gets as the first question of a fresh module."""
+    S = engine.S
+    i, j = case
+    bi, bj = _hbase(i), _hbase(j)
+    for k in range(len(HCALLS)):
+        bk = _hbase(k)
+        _reload_theory()
+        got = [_hdo(i), _hdo(j), _hdo(k)]
+        S.trans(3)
+        for pos, (g, b, c) in enumerate(zip(got, (bi, bj, bk), (i, j, k))):
+            if g != b:
+                S.problem("intervals.%s%r as call %d of the history %s" % (HCALLS[c][0], HCALLS[c][1], pos + 1,
+                          [HCALLS[x][0] + repr(HCALLS[x][1]) for x in (i, j, k)[:pos + 1]]), b, g)
+                return
+    S.count("histories_of_three_calls", len(HCALLS))
+    S.outcome((i, j))
+
+
+def run_long_history(case):
+    """One long history in freshly loaded modules: a list of questions, then the pitch class of every name with up to
+    `case` accidentals is asked for (through measure), then the same questions again."""
+    S = engine.S
+    _reload_theory()
+    first = [_hdo(i) for i in range(len(HCALLS))]
+    names = P.names(case)
+    for nm in names:
+        try:
+            engine.with_step_budget(_intervals_module.measure, (nm, "C"), budget=20000)
+        except Exception:                               # noqa
+            pass
+    S.trans(len(names) + 2 * len(HCALLS))
+    again = [_hdo(i) for i in range(len(HCALLS))]
+    for i, (a, b) in enumerate(zip(first, again)):
+        if a != b:
+            S.problem("intervals.%s%r asked again after %d other names were measured" % (HCALLS[i][0], HCALLS[i][1], len(names)), a, b)
+            break
+    for i, a in enumerate(first):
+        if a != _hbase(i):
+            S.problem("intervals.%s%r as question %d of a fresh process" % (HCALLS[i][0], HCALLS[i][1], i + 1), _hbase(i), a)
+            break
+    S.count("long_histories")
+    S.outcome(("long", case, len(names)))
+
+
 CLAUSES = {
     "constructors": run_constructors,
     "closure": run_closure,
     "measure": run_measure,
+    "history3": run_history3,
+    "long_history": run_long_history,
 }
 
 _K = [0, 0]
@@ -281,6 +378,11 @@ def explore(ctx):
         if not ctx.only:
             ctx.guard("closure states", len(seen), 84)
             ctx.guard("closure inputs with six accidentals", ctx.counter("closure_inputs_with_six_accidentals"), 7)
+    if ctx.want("history3"):
+        ctx.bound("history3", "every sequence of 3 calls over %d calls (measure, constructors, predicates, refused calls), each from freshly loaded modules" % len(HCALLS))
+        ctx.product("history3", list(range(len(HCALLS))), lambda i: ([i, j] for j in range(len(HCALLS))))
+    if ctx.want("long_history"):
+        ctx.product("long_history", [3, 5], lambda k: [k])
     if ctx.want("measure"):
         _PAIR_NAMES[0] = P.names(k2) + [L + a * n for L in P.LETTERS for n in range(k2 + 1, 15) for a in "#b"]
         ctx.bound("pair_names", "every order of <= %d accidentals + homogeneous runs of up to 14 (%d names)" % (k2, len(_PAIR_NAMES[0])))
